@@ -173,6 +173,12 @@ def run_obligations(scratch, obls, tier, jobs=None, timeout_s=None, mem_gb=None)
 PLAYBACK_RE = re.compile(r"(///[^\n]*\n)*#\[test\]\s*\nfn (kani_concrete_playback_\w+)\(\) \{.*?\n\}\n", re.S)
 
 
+def _is_playback_of(test_name, harness):
+    """kani_concrete_playback_<harness>_<hash>: exact harness name (c13_trim_horizon is a prefix of
+    c13_trim_horizon_null_old - a prefix test appended the longer one's tests twice and the playback build failed)"""
+    return re.match(r"^kani_concrete_playback_" + re.escape(harness) + r"_\d+$", test_name) is not None
+
+
 def replay(scratch, cands, prop, timeout_s=1500):
     """For each candidate (a violated obligation): ask Kani for the concrete counterexample, append the generated unit
     test(s) to the scratch copy of the harness file and execute them natively with `cargo kani playback` (dev profile,
@@ -191,7 +197,7 @@ def replay(scratch, cands, prop, timeout_s=1500):
             tests[m.group(2)] = m.group(0)
     # append the generated unit tests to the scratch copy of the harness file (same module as the harness fn)
     for o in cands:
-        mine = [t for n, t in tests.items() if n.startswith("kani_concrete_playback_" + o["harness"] + "_")]
+        mine = [t for n, t in tests.items() if _is_playback_of(n, o["harness"])]
         if mine:
             with open(scratch.injected[o["file"]], "a") as f:
                 f.write("\n" + "\n".join(mine))
@@ -220,7 +226,7 @@ def replay(scratch, cands, prop, timeout_s=1500):
     passed_tests = set(re.findall(r"^test (\S+) \.\.\. ok", txt, re.M))
     built = bool(failed_tests or passed_tests)
     for o in cands:
-        mine = {n: t for n, t in tests.items() if n.startswith("kani_concrete_playback_" + o["harness"] + "_")}
+        mine = {n: t for n, t in tests.items() if _is_playback_of(n, o["harness"])}
         rep = [n for n in mine if any(ft.endswith("::" + n) for ft in failed_tests)]
         panic = ""
         for n in rep:
